@@ -104,6 +104,17 @@ func (w *world) runOp(name string, arg int) opResult {
 			protocol.HandshakeResult{Hash: t.Hash, Id: id}, nil)
 	case "Kill":
 		r.err = t.Kill(context.Background())
+		if r.err == nil {
+			// Kill reports a completed deletion: observed at that very moment
+			select {
+			case <-t.Deleted:
+			default:
+				r.note = "Kill returned nil, but Deleted is not closed yet: deletion is still in progress"
+			}
+			if r.note == "" && tor.Get(t.Hash) != nil {
+				r.note = "Kill returned nil, but the torrent is still listed"
+			}
+		}
 	case "tor.Announce":
 		r.err = tor.Announce(t.Hash, arg%2 == 0)
 		if errors.Is(r.err, context.Canceled) {
@@ -388,6 +399,9 @@ func oneCase(rt *rapid.T, opName, stop string) (fail string, labels []string) {
 	describe := fmt.Sprintf("operation %s, stop point %s (peers=%d readers=%d fillers=%d)", opName, stop, np, nr, fillers)
 	select {
 	case r := <-done:
+		if r.name == "Kill" && r.note != "" {
+			return fmt.Sprintf("%s: %s", describe, r.note), nil
+		}
 		if !acceptable(r.err) {
 			return fmt.Sprintf("%s: returned unexpected error %v", describe, r.err), nil
 		}
